@@ -210,6 +210,8 @@ pub fn drive(log: &mut Log) {
         alpha_run(log, &mut rng, &syms);
     }
 
+    gc_rep_runs(log, &mut case);
+
     // GC content
     let ngc = log.opts.n(40, 400);
     for i in 0..ngc {
@@ -252,6 +254,43 @@ pub fn drive(log: &mut Log) {
             if t.len() % 3 != 0 {
                 log.oblige("gc3_len_not_multiple_of_3");
             }
+        }
+    }
+}
+
+/// `reps` repetitions of `unit`, streamed (the sequence is never materialised or logged)
+fn gc_rep_runs(log: &mut Log, case: &mut u64) {
+    // (unit, reps for gc, reps for gc3): more than 2^24 G/C symbols counted in one call
+    let cases: [(&[u8], u64, u64); 4] = [
+        (b"G", 20_000_000, 51_000_000),
+        (b"GATC", 10_000_000, 30_000_000),
+        (b"cgCGAT", 9_000_000, 9_000_001),
+        (b"ATTAGC", 3, 100),
+    ];
+    for (unit, r1, r3) in cases.iter() {
+        *case += 1;
+        if !log.mine(*case) {
+            continue;
+        }
+        if !log.begin("gr", json!({"kind": "gc"})) {
+            continue;
+        }
+        let ngc = unit.iter().filter(|b| b"GCgc".contains(b)).count() as u64;
+        log.call("gc_rep", json!({"unit": bytes(unit), "reps": r1}), || {
+            let it = std::iter::repeat(*unit).take(*r1 as usize).flatten();
+            let (g, nan) = fixed(gc::gc_content(it));
+            json!({"g": g, "nan": nan})
+        });
+        if ngc * r1 > (1 << 24) {
+            log.oblige("more_than_2p24_gc_symbols");
+        }
+        log.call("gc3_rep", json!({"unit": bytes(unit), "reps": r3}), || {
+            let it = std::iter::repeat(*unit).take(*r3 as usize).flatten();
+            let (g, nan) = fixed(gc::gc3_content(it));
+            json!({"g": g, "nan": nan})
+        });
+        if unit.len() == 1 && ngc * r3 / 3 > (1 << 24) {
+            log.oblige("more_than_2p24_gc3_symbols");
         }
     }
 }
